@@ -723,6 +723,33 @@ def coq_struct(case, raw):
     raise ValueError(k)
 
 
+def _block_toggled_under_open_block(ops):
+    """Exactly the defect's class: some object opens or leaves its OUTERMOST block while another object that shares its
+    platform object (original and shallow copies of it) is inside a block."""
+    depth = [0]                      # all objects of such a history share one platform object
+    for o in ops:
+        if o[0] == "copy":
+            depth.append(0)
+            continue
+        ob, op = o[1], o[2][0]
+        if ob >= len(depth):
+            continue
+        others_inside = any(d > 0 for i, d in enumerate(depth) if i != ob)
+        if op == "enter":
+            if depth[ob] == 0 and others_inside:
+                return True
+            depth[ob] += 1
+        elif op == "exit" and depth[ob] > 0:
+            depth[ob] -= 1
+            if depth[ob] == 0 and others_inside:
+                return True
+        elif op == "raise" and depth[ob] > 0:
+            depth[ob] = 0
+            if others_inside:
+                return True
+    return False
+
+
 def finding_key(case, coq):
     if case["kind"] == "copyhist" and not coq.get("model_ok", True):
         # the tree's own copy protocol (as probed) lets a copy answer from a block that is no longer open
@@ -730,7 +757,8 @@ def finding_key(case, coq):
         others = any(o[0] == "copy" and o[2] != "copy" and (t.get(o[2] + "_in") or t.get(o[2] + "_out")) for o in case["ops"])
         if t.get("copy_in") == [True, True, False] and t.get("copy_out") == [True, False, False] and not others:
             return "shallow-copy-keeps-front-cache"
-        if t.get("copy_in") == [True, False, False] and t.get("copy_out") == [True, False, False] and not others:
+        if t.get("copy_in") == [True, False, False] and t.get("copy_out") == [True, False, False] and not others \
+                and _block_toggled_under_open_block(case["ops"]):
             # the copy refers to the same platform object: a block entered / left on one of them resets / deletes the
             # platform-level cache of a block the other one is still in
             return "shallow-copy-shares-platform-object"
